@@ -28,6 +28,8 @@ type G struct {
 	// conversion order / duplicate counting are confirmed present.
 	NonFlatConv  bool
 	NonFlatCount bool
+	// Prefixes, when set, are the prefixes name tests are drawn with ("" = unprefixed).
+	Prefixes []string
 }
 
 // NewG builds a generation context with the default alphabets.
@@ -53,14 +55,21 @@ func (g *G) axes() []string {
 // testsFor lists the node tests drawn for an axis (simplest first, for shrinking).
 func (g *G) testsFor(axis string) []xast.NodeTest {
 	var ts []xast.NodeTest
-	if axis == "attribute" {
-		for _, n := range g.AtNames {
-			ts = append(ts, xast.NodeTest{Kind: "name", Local: n})
-		}
-		return append(ts, xast.NodeTest{Kind: "wild"}, xast.NodeTest{Kind: "node"})
+	prefixes := g.Prefixes
+	if len(prefixes) == 0 {
+		prefixes = []string{""}
 	}
-	for _, n := range g.ElNames {
-		ts = append(ts, xast.NodeTest{Kind: "name", Local: n})
+	names := g.ElNames
+	if axis == "attribute" {
+		names = g.AtNames
+	}
+	for _, pf := range prefixes {
+		for _, n := range names {
+			ts = append(ts, xast.NodeTest{Kind: "name", Prefix: pf, Local: n})
+		}
+	}
+	if axis == "attribute" {
+		return append(ts, xast.NodeTest{Kind: "wild"}, xast.NodeTest{Kind: "node"})
 	}
 	return append(ts, xast.NodeTest{Kind: "wild"}, xast.NodeTest{Kind: "node"}, xast.NodeTest{Kind: "text"}, xast.NodeTest{Kind: "comment"})
 }
